@@ -40,7 +40,7 @@ import (
 type pairSpec struct {
 	NA     int    `json:"na"`     // chain length of A
 	NB     int    `json:"nb"`     // chain length of B (different from NA)
-	AMode  string `json:"amode"`  // paused | queued
+	AMode  string `json:"amode"`  // paused | queued | newbusy (B's NewRequest handed over while the loop is held in A's outgoing-request hook, B's context cancelled before the loop replies)
 	AFirst bool   `json:"afirst"` // A's response precedes B's in the message
 	StA    string `json:"sta"`    // partial | succ | fail
 	CodeA  int    `json:"codea,omitempty"`
@@ -54,6 +54,9 @@ func genPair(r *rng.R) rcase {
 	p.NB = p.NA + 1
 	if r.P(1, 2) {
 		p.AMode = "queued"
+	}
+	if r.P(1, 4) {
+		p.AMode = "newbusy"
 	}
 	switch r.Intn(6) {
 	case 0:
@@ -205,8 +208,16 @@ func runPair(ps pairSpec) (res pairResult) {
 			}
 		}
 	})
+	// newbusy: the actor loop is held inside the outgoing-request hook of A
+	ng := &gate{ch: make(chan bool)}
+	requestHooks := hooks.NewRequestHooks()
+	requestHooks.Register(func(_ peer.ID, rq graphsync.RequestData, _ graphsync.OutgoingRequestHookActions) {
+		if ps.AMode == "newbusy" && rq.ID() == A.id {
+			ng.wait("reqhook", false)
+		}
+	})
 	tq := taskqueue.NewTaskQueue(ctx)
-	rm := requestmanager.New(ctx, persistenceoptions.New(), lsys, hooks.NewRequestHooks(), hooks.NewResponseHooks(),
+	rm := requestmanager.New(ctx, persistenceoptions.New(), lsys, requestHooks, hooks.NewResponseHooks(),
 		listeners.NewNetworkErrorListeners(), listeners.NewRequestProcessingListeners(), tq, connMgr{}, 0, nil)
 	ex := executor.NewExecutor(rm, blockHooks)
 	rm.SetDelegate(pairHandler{&mu, byID})
@@ -358,6 +369,103 @@ func runPair(ps pairSpec) (res pairResult) {
 	failed := func() bool { return res.hung || res.goViol != "" }
 
 	// --- script
+	if ps.AMode == "newbusy" {
+		// B's new-request message is handed to the actor loop while the loop is busy (held inside A's outgoing-request
+		// hook); B's caller cancels its context before the loop gets to reply.  NewRequest must still hand back live
+		// channels (B then ends with the client-cancelled error and two closes), the loop must not be left waiting for
+		// a caller that went away, and A must still get its terminal status.
+		begin := func(q *preq) chan struct{} {
+			cctx, cancel := context.WithCancel(context.WithValue(ctx, graphsync.RequestIDContextKey{}, q.id))
+			q.cancel = cancel
+			done := make(chan struct{})
+			go func() {
+				pr, er := rm.NewRequest(cctx, p, q.d.Root(), sel)
+				mu.Lock()
+				q.prog, q.errc = pr, er
+				mu.Unlock()
+				close(done)
+			}()
+			return done
+		}
+		doneA := begin(A)
+		if !settle() {
+			res.hung = true
+			return
+		}
+		if k, _ := ng.held(); k != "reqhook" {
+			res.goViol = "driver: the outgoing-request hook was not entered"
+			return
+		}
+		doneB := begin(B)
+		if !settle() {
+			res.hung = true
+			return
+		}
+		mu.Lock()
+		B.log = append(B.log, "OEnv LEnvCtxCancel")
+		mu.Unlock()
+		B.cancel()
+		if !settle() {
+			res.hung = true
+			return
+		}
+		ng.release(false)
+		for _, d := range []chan struct{}{doneA, doneB} {
+			select {
+			case <-d:
+			case <-time.After(10 * time.Second):
+				res.goViol = "NewRequest did not return after the loop was released"
+				return
+			}
+		}
+		if !quiet() {
+			return
+		}
+		for i := 0; i < 3; i++ {
+			if k, _ := A.g.held(); k == "pop" || k == "store" {
+				if !goGate(A) {
+					return
+				}
+			}
+		}
+		ra, ba, oa := mkResp(A, 0, "fail", ps.CodeA)
+		mu.Lock()
+		A.log = append(A.log, oa)
+		if A.live {
+			A.termLive = true
+		}
+		B.termLive = true // cancelled by its caller: must close without further help
+		mu.Unlock()
+		rm.ProcessResponses(p, []gsmsg.GraphSyncResponse{ra}, ba)
+		if !quiet() {
+			return
+		}
+		for _, q := range res.reqs {
+			for i := 0; i < 400; i++ {
+				progress := false
+				if k, _ := q.g.held(); k != "" {
+					if !goGate(q) {
+						return
+					}
+					progress = true
+				}
+				if recv(q) {
+					progress = true
+				}
+				if failed() {
+					return
+				}
+				if !progress {
+					break
+				}
+			}
+			if !(q.closedP && q.closedE) {
+				res.goViol = "request " + q.name + ": new request handed over while the loop was busy and B's caller cancelled before the reply; every gate was released and the caller kept reading, but the channels of " + q.name + " are not closed"
+				return
+			}
+		}
+		return
+	}
 	start(A)
 	if !quiet() {
 		return
